@@ -119,6 +119,8 @@ class Piece:
         # T-MACRO: expand the repository's own single-arm macro_rules! at their call sites (pre-pass)
         if mode != "stub":
             text = self._expand_macros(text)
+        if mode != "stub":
+            text = self._merge_guards(text)
         self.sf = SourceFile(relpath + "::" + spec, text)
         if len(self.sf.items) != 1:
             raise Undecided(f"{spec}: expected one item after extraction, got {len(self.sf.items)}")
@@ -169,6 +171,75 @@ class Piece:
                                       "from": text[start:toks[kc].end], "to": exp})
             text = text[:start] + exp + text[toks[kc].end:]
         raise Undecided("macro expansion did not terminate")
+
+    def _merge_guards(self, text):
+        """T-CTRL (guard merge, pre-pass): the installed Verus loses the state after a `match` with a guarded arm.  The one
+        shape `P if G => E1, P => E2` (same pattern text, guard arm directly before its unguarded twin) is rewritten to
+        `P => if G { E1 } else { E2 }`; any other guard is outside the supported constructs (undecided)."""
+        for _round in range(50):
+            toks = lex(text)
+            n = len(toks)
+            found = None
+            for k in range(1, n - 1):
+                if toks[k].text == "=" and toks[k + 1].text == ">" and toks[k].end == toks[k + 1].start:
+                    j = k - 1
+                    depth = 0
+                    while j > 0:
+                        tx = toks[j].text
+                        if tx in (")", "]"):
+                            depth += 1
+                        elif tx in ("(", "["):
+                            depth -= 1
+                        elif depth == 0 and tx in (",", "{", "}"):
+                            break
+                        j -= 1
+                    arm0 = j + 1
+                    gi = next((i for i in range(arm0, k) if toks[i].text == "if"), None)
+                    if gi is not None:
+                        found = (k, arm0, gi)
+                        break
+            if found is None:
+                return text
+            k, arm0, gi = found
+
+            def arm_body(kk):
+                b0 = kk + 2
+                if toks[b0].text == "{":
+                    e = match_close(toks, b0)
+                    return b0, e, toks[e + 1].text == ","
+                i = b0
+                while True:
+                    tx = toks[i].text
+                    if tx in OPEN:
+                        i = match_close(toks, i) + 1
+                        continue
+                    if tx == "," or tx == "}":
+                        return b0, i - 1, tx == ","
+                    i += 1
+            pat1 = text[toks[arm0].start:toks[gi].start].strip()
+            b0, b1, comma1 = arm_body(k)
+            n0 = b1 + (2 if comma1 else 1)
+            kk = n0
+            while not (toks[kk].text == "=" and toks[kk + 1].text == ">"):
+                if toks[kk].text in ("}", ";"):
+                    raise Undecided("match guard outside the supported shape")
+                kk += 1
+            pat2 = text[toks[n0].start:toks[kk].start].strip()
+            if pat2 != pat1:
+                raise Undecided(f"match guard outside the supported shape (`{pat1} if ..` is not followed by `{pat1} =>`)")
+            c0, c1, comma2 = arm_body(kk)
+            guard = text[toks[gi + 1].start:toks[k].start].strip()
+            e1 = text[toks[b0].start:toks[b1].end]
+            e2 = text[toks[c0].start:toks[c1].end]
+            if not e1.startswith("{"):
+                e1 = "{ " + e1 + " }"
+            if not e2.startswith("{"):
+                e2 = "{ " + e2 + " }"
+            new = f"{pat1} => if {guard} {e1} else {e2}"
+            self.rewrites_log.append({"rule": "T-CTRL", "file": self.relpath, "item": self.spec,
+                                      "from": text[toks[arm0].start:toks[c1].end], "to": new})
+            text = text[:toks[arm0].start] + new + text[toks[c1].end:]
+        raise Undecided("guard merge did not terminate")
 
     def _dummy(self):
         pass
@@ -284,7 +355,9 @@ class Piece:
             t = toks[k]
             if t.text == "format" and toks[k + 1].text == "!" and toks[k + 2].text == "(":
                 close = match_close(toks, k + 2)
-                if toks[close + 1].text == "." and toks[close + 2].text == "into" and toks[k - 1].text != "&":
+                into_err = toks[close + 1].text == "." and toks[close + 2].text == "into" and toks[k - 1].text != "&"
+                from_err = toks[k - 1].text == "(" and toks[k - 2].text == "from" and toks[k - 4].text == ":" and toks[k - 5].text == "Error"
+                if into_err or from_err:
                     inner = toks[k + 3:close]
                     if not any(x.text == "(" and i > 0 and inner[i - 1].kind == "ident" and inner[i - 1].text not in PURE_LOG
                                for i, x in enumerate(inner)):
@@ -392,6 +465,10 @@ class Piece:
             kw, ko = lps[ordinal - 1]
             self._add(toks[ko].start, toks[ko].start, "\n" + text + "\n", "insert")
         self.nloops = len(lps)
+        self.unit.shapes[f"{self.relpath}::{self.spec}::{fn.name}"] = len(lps)
+        want = self.unit.baseline_shapes.get(f"{self.relpath}::{self.spec}::{fn.name}")
+        if want is not None and want != len(lps):
+            raise Undecided(f"{fn.name}: has {len(lps)} loops, the contract was written for {want} (a new loop needs its own invariant)")
         # anchors
         fstart, fend = toks[kb].start, toks[k1].end
         ftext = self.sf.text[fstart:fend]
@@ -720,6 +797,12 @@ class Unit:
         self.drop_derives = set()
         self.pieces = []
         self.macros = {}   # name -> ([param names], body text)
+        self.shapes = {}
+        try:
+            import json as _json
+            self.baseline_shapes = _json.load(open(os.path.join(VERIF, "baseline_shapes.json"))).get(name, {})
+        except Exception:
+            self.baseline_shapes = {}
         self.macro_fns = {}  # name -> call template (T-MACRO-FN: the macro body lives in a verified helper fn)
         self.vacuity = False
         self.vacuity_expected = []
